@@ -446,7 +446,8 @@ ExploreClauses(W, S, ev) ==
                              \A j \in 1..k : ev.paths[j] \in SeqSet(ev.uniform) =>
                                 LET F == feas(j) IN
                                 (ev.paths[j] \in DOMAIN ev.bounds
-                                 /\ {m \in 0..(2 ^ TypeOfPath(W, ev.paths[j]).w - 1) : InRanges(m, ev.bounds[ev.paths[j]])} = F)
+                                 /\ {m \in 0..(2 ^ TypeOfPath(W, ev.paths[j]).w - 1) :
+                                        InRanges(IntOf(W, ev.paths[j], NatBits(m, TypeOfPath(W, ev.paths[j]).w)), ev.bounds[ev.paths[j]])} = F)
                                 => \A v \in F : FracEq(probOf(j, v), <<1, Cardinality(F)>>),
     memo_equal        |-> (ev.complete /\ ev.memo_eq # "") =>                                        \* C20: program pairs
                              (ev.memo_eq \in DOMAIN S.memo /\ S.memo[ev.memo_eq] = ev.marg[1]),
